@@ -15,6 +15,7 @@ import json
 import random
 
 from .. import common as C
+from .. import forms as F
 from .. import gen_graph as G
 from ..oracles import sep_paths as O
 from .c04 import rand_admg, rand_query, table_order
@@ -27,6 +28,7 @@ RULE = ("ADMGs (2-6 nodes; parallel directed+bidirected pairs, bidirected chains
         "agreement clause with a non-empty conditioning set or a bidirected edge that matters, or a cyclic graph with adjacent "
         "or connected endpoints.")
 ASSUMPTIONS = [
+    "argument FORMS (harness/forms.py; chosen deterministically per case, stored in the case, tagged form_*): the conditioning set in every iterable form (list / tuple / set / frozenset / dict keys / generator / iterator / map; empty also as None or omitted), a different form for the swapped query; cutoff omitted or None; graph / left / right positional or by keyword; the graph through every public constructor of NxMixedGraph. The model takes lists: independence of the form is a runtime clause decided by correspondence + oracle",
     "adjacency clause is read with both endpoints outside the conditioning set (a path with a conditioned endpoint is closed by "
     "the definition of Z-sigma-open; the code answers 'separated' there and the theorem sigma_endpoint_conditioned says so)",
     "agreement is proved against m-connecting paths / d-connection in the canonical latent DAG (Spec/SepSpec.lean); that these "
@@ -84,7 +86,39 @@ def rand_collider_chain(rng):
     return g, 1, 2, [prev]
 
 
+COND_FORMS = F.CONTAINERS
+EMPTY_FORMS = F.CONTAINERS + ("none", "omitted", "none", "omitted")
+
+
+def _slots(case):
+    if case["kind"] == "one":
+        e = EMPTY_FORMS if not case["C"] else COND_FORMS
+        return {"conditions": e, "conditions_swapped": e, "ctor": F.CTORS, "call": ("positional", "keyword"),
+                "cutoff": ("omitted", "none")}
+    return {"ctor": F.CTORS}
+
+
+def _forms(case):
+    return F.forms_of(case, _slots(case))
+
+
+def _graph(case):
+    g = case["g"]
+    ctor = _forms(case)["ctor"]
+    graph = F.build_graph(g, ctor, seed=3 * len(g["di"]) + len(g["bi"]))
+    return graph, F.constructor_fault(g, graph, ctor)
+
+
+def _cell_form(a, b, Cs):
+    opts = COND_FORMS if Cs else EMPTY_FORMS
+    return opts[(5 * a + 3 * b + 11 * len(Cs) + sum(Cs)) % len(opts)]
+
+
 def cases(rng: random.Random, tier: str):
+    return [F.assign(c, _slots(c)) for c in _cases(rng, tier)]
+
+
+def _cases(rng: random.Random, tier: str):
     out = [dict(c) for c in CORPUS] + _load_corpus()
     for _ in range(6000 if tier == "quick" else 40000):
         r = rng.random()
@@ -140,13 +174,22 @@ def _load_corpus():
 
 # ------------------------------------------------------------------------------------------ real code
 
-def _call(graph, a, b, Cs):
+def _call(graph, a, b, Cs, form="list", kw=False, cutoff="omitted"):
     import networkx as nx
     from y0.algorithm.separation.sigma_separation import are_sigma_separated
 
+    kwargs = {}
+    if form != "omitted":
+        kwargs["conditions"] = None if form == "none" else F.container([G.V(c) for c in Cs], form)
+    if cutoff == "none":
+        kwargs["cutoff"] = None
     try:
-        return ["ok", "true" if are_sigma_separated(graph, G.V(a), G.V(b), conditions=[G.V(c) for c in Cs]) else "false"]
-    except (KeyError, nx.NetworkXError, nx.NodeNotFound, IndexError) as e:
+        if kw:
+            r = are_sigma_separated(graph=graph, left=G.V(a), right=G.V(b), **kwargs)
+        else:
+            r = are_sigma_separated(graph, G.V(a), G.V(b), **kwargs)
+        return ["ok", "true" if r else "false"]
+    except (KeyError, nx.NetworkXError, nx.NodeNotFound, IndexError, TypeError):
         return ["err"]
 
 
@@ -154,11 +197,11 @@ def _adjacent(g, a, b):
     return a != b and any(set(e) == {a, b} for e in g["di"] + g["bi"])
 
 
-def _check(g, graph, a, b, Cs, out):
+def _check(g, graph, a, b, Cs, out, back_form=None, kw=False):
     """oracle for one query; returns failure text or None"""
     V = set(G.all_nodes(g))
     if a in V and b in V:
-        back = _call(graph, b, a, Cs)
+        back = _call(graph, b, a, Cs, back_form or _cell_form(b, a, Cs), kw)
         if back != out:
             return f"not symmetric: sigma({a},{b}|{Cs}) = {out}, sigma({b},{a}|{Cs}) = {back}"
         if _adjacent(g, a, b) and a not in Cs and b not in Cs and out != ["ok", "false"]:
@@ -174,11 +217,13 @@ def _check(g, graph, a, b, Cs, out):
 
 def _run_table(case):
     g = case["g"]
-    graph = G.to_nx_mixed(g)
+    graph, fault = _graph(case)
     V = G.all_nodes(g)
     cells, fails = [], []
+    if fault:
+        return "#constructor-fault", [(V[0], V[-1], [], fault)]
     for a, b, Cs in table_order(V):
-        out = _call(graph, a, b, Cs)
+        out = _call(graph, a, b, Cs, _cell_form(a, b, Cs), kw=(a + b) % 2 == 0)
         cells.append("e" if out == ["err"] else out[1][0])
         f = _check(g, graph, a, b, Cs, out)
         if f:
@@ -193,7 +238,10 @@ def run_python(case):
     if case["kind"] == "classes":
         from y0.algorithm.separation.sigma_separation import get_equivalence_classes
 
-        cl = get_equivalence_classes(G.to_nx_mixed(g))
+        graph, fault = _graph(case)
+        if fault:
+            return {"out": ["err"], "fail": fault, "nontrivial": False, "tags": dict({"kind": "classes"}, **F.tags(_forms(case)))}
+        cl = get_equivalence_classes(graph) if len(g["di"]) % 2 else get_equivalence_classes(graph=graph)
         out = ["ok", C.as_set([[str(G.vint(v)), C.as_set([str(G.vint(x)) for x in s])] for v, s in cl.items()])]
         # strongly connected components by definition
         di = {tuple(e) for e in g["di"]}
@@ -210,19 +258,25 @@ def run_python(case):
         R = {v: reach(v) for v in V}
         want = ["ok", C.as_set([[str(v), C.as_set([str(w) for w in V if w in R[v] and v in R[w]])] for v in V])]
         fail = None if out == want else f"equivalence classes {out} are not the strongly connected components {want}"
-        return {"out": out, "fail": fail, "nontrivial": not acyclic, "tags": {"kind": "classes", "acyclic": acyclic}}
+        return {"out": out, "fail": fail, "nontrivial": not acyclic,
+                "tags": dict({"kind": "classes", "acyclic": acyclic}, **F.tags(_forms(case)))}
     if case["kind"] == "table":
         cells, fails = _run_table(case)
         fail = f"sigma({fails[0][0]},{fails[0][1]}|{fails[0][2]}): {fails[0][3]} ({len(fails)} queries of this graph fail)" if fails else None
         return {"out": ["ok", cells], "fail": fail, "nontrivial": len(V) >= 3,
-                "tags": {"kind": "table", "n_nodes": len(V), "acyclic": acyclic}}
+                "tags": dict({"kind": "table", "n_nodes": len(V), "acyclic": acyclic}, **F.tags(_forms(case)))}
     a, b, Cs = case["a"], case["b"], case["C"]
-    graph = G.to_nx_mixed(g)
-    out = _call(graph, a, b, Cs)
-    fail = _check(g, graph, a, b, Cs, out)
+    fm = _forms(case)
+    graph, fault = _graph(case)
+    if fault:
+        return {"out": ["err"], "fail": fault, "nontrivial": False, "tags": dict({"kind": "one"}, **F.tags(fm))}
+    kw = fm["call"] == "keyword"
+    out = _call(graph, a, b, Cs, fm["conditions"], kw, fm["cutoff"])
+    fail = _check(g, graph, a, b, Cs, out, fm["conditions_swapped"], not kw)
     scope = O.in_scope(g, a, b, Cs)
     tags = {"kind": "one", "n_nodes": len(V), "acyclic": acyclic, "in_scope": scope, "csize": len(set(Cs)),
             "outcome": out[0] if out[0] == "err" else out[1], "adjacent": _adjacent(g, a, b)}
+    tags.update(F.tags(fm))
     nontrivial = (scope and (bool(Cs) or bool(g["bi"]))) or (not acyclic and a in V and b in V and a != b)
     return {"out": out, "fail": fail, "nontrivial": nontrivial, "tags": tags}
 
